@@ -183,8 +183,10 @@ Theorem C08_combine_is_oneshot_if :
   in_sub y0 x0 nr nc c = true ->
   (* H_pos *)
   (forall g ic p c' w, In g groups -> In ic g -> In p (snd ic) -> In (c', w) (px_fp p) -> 0 < w) ->
-  (* H_thresh *)
-  (forall g ic p c' w, In g groups -> In ic g -> In p (snd ic) -> In (c', w) (px_fp p) ->
+  (* H_thresh: both paths use the same effective threshold (explicit weight_sum_min > 0: C08_thresholds_explicit),
+     or every table weight reaches both (default -1: one-shot thresholds at weight_min, dask at EPSILON) *)
+  (sum_min_write RO (sum_min_fornav RO wsm wmin) = sum_min_write RO wsm \/
+   forall g ic p c' w, In g groups -> In ic g -> In p (snd ic) -> In (c', w) (px_fp p) ->
      sum_min_write RO (sum_min_fornav RO wsm wmin) <= w /\ sum_min_write RO wsm <= w) ->
   (* H_empty *)
   (forall g ic p c' w, In g groups -> In ic g -> fst ic = true -> In p (snd ic) -> px_val p <> None ->
@@ -227,11 +229,13 @@ Definition ex_groups_R : list (list (bool * list (pixel R))) :=
   [ [ (false, [mk_pixel (Some 10) [((2, 3)%Z, /2)]]) ]; [ (false, [mk_pixel (Some 20) [((2, 3)%Z, /4); ((0, 0)%Z, /2)]]) ] ].
 Example C08_ex_combine_hyp :
   in_sub 2 2 2 2 (2, 3)%Z = true /\
+  sum_min_write RO (sum_min_fornav RO (/100) (/100)) = sum_min_write RO (/100) /\
   (forall g ic p c' w, In g ex_groups_R -> In ic g -> In p (snd ic) -> In (c', w) (px_fp p) ->
      0 < w /\ sum_min_write RO (sum_min_fornav RO (/100) (/100)) <= w /\ sum_min_write RO (/100) <= w) /\
   (forall g ic, In g ex_groups_R -> In ic g -> fst ic = false).
 Proof.
-  split; [reflexivity|]. destruct (thresholds_agree (/100) (/100)) as [E1 E2]; [lra|]. rewrite E1, E2. split.
+  split; [reflexivity|]. destruct (thresholds_agree (/100) (/100)) as [E1 E2]; [lra|]. rewrite E1, E2.
+  split; [reflexivity|]. split.
   - intros g ic p c' w [<-|[<-|[]]] [<-|[]] [<-|[]] Hf; cbn in Hf.
     + destruct Hf as [E|[]]; inversion E; subst; lra.
     + destruct Hf as [E|[E|[]]]; inversion E; subst; lra.
